@@ -398,6 +398,11 @@ def iop(op, ty, a, b):
     if op in ('gt', 'ge'):
         op = {'gt': 'lt', 'ge': 'le'}[op]
         a, b = b, a
+    # distribute over gated constants (enum-derived indices): op(ite(c, k1, k2), k) = ite(c, op(k1,k), op(k2,k))
+    if is_const(b) and a.op == 'ite' and _const_leaves(a):
+        return ite(a.args[0], iop(op, ty, a.args[1], b), iop(op, ty, a.args[2], b))
+    if is_const(a) and b.op == 'ite' and _const_leaves(b):
+        return ite(b.args[0], iop(op, ty, a, b.args[1]), iop(op, ty, a, b.args[2]))
     # bit-level reasoning (movemask & 7, == 7, != 0, >> k)
     if op in ('and', 'or', 'xor', 'eq', 'ne', 'shr', 'shl'):
         ba, bb = bits_of(a, bits), bits_of(b, bits)
@@ -430,6 +435,14 @@ def iop(op, ty, a, b):
             return a
         if is_const(a) and cbits(a) == 1:
             return b
+    if op in ('eq', 'ne') and (is_const(a) or is_const(b)):
+        k, x = (a, b) if is_const(a) else (b, a)
+        if x.op == 'ite' and _const_leaves(x):
+            return ite(x.args[0], iop(op, ty, x.args[1], k), iop(op, ty, x.args[2], k))
+        if not signed or _val(k, bits, signed) >= 0:
+            hi = upper_bound(x, bits)
+            if hi is not None and hi < cbits(k):
+                return FALSE if op == 'eq' else TRUE
     if op in ('eq', 'le') and a is b:
         return TRUE
     if op in ('ne', 'lt') and a is b:
@@ -450,12 +463,28 @@ def iop(op, ty, a, b):
     return mk(op + ':' + ty, a, b)
 
 
+def _const_leaves(t, depth=0):
+    if is_const(t):
+        return True
+    if t.op == 'ite' and depth < 40:
+        return _const_leaves(t.args[1], depth + 1) and _const_leaves(t.args[2], depth + 1)
+    return False
+
+
+def _nonneg(t):
+    if is_const(t):
+        return True
+    return t.op in ('discr_atom', 'b2i', 'bits') or (t.op == 'ite' and _nonneg(t.args[1]) and _nonneg(t.args[2]))
+
+
 def upper_bound(t, bits):
     """a sound unsigned upper bound of an integer term, or None"""
     if is_const(t):
         return cbits(t)
     if t.op == 'b2i':
         return 1
+    if t.op == 'discr_atom':
+        return t.args[1] if t.args[1] >= 0 else None
     if t.op == 'bits':
         v = 0
         for i, b in enumerate(t.args):
@@ -464,6 +493,9 @@ def upper_bound(t, bits):
         return v
     if t.op.startswith('rem:u') and is_const(t.args[1]) and cbits(t.args[1]) > 0:
         return cbits(t.args[1]) - 1
+    if t.op.startswith('sub:u') and is_const(t.args[1]):
+        # only sound when no wrap-around: callers guard with a `0 < x` test; keep conservative
+        return None
     if t.op.startswith('and:') and (is_const(t.args[0]) or is_const(t.args[1])):
         c = t.args[0] if is_const(t.args[0]) else t.args[1]
         return cbits(c)
@@ -473,9 +505,7 @@ def upper_bound(t, bits):
             return max(a, b)
     if t.op == 'cast' and t.args[0] == 'IntToInt':
         # zero-extension / truncation of an unsigned bounded value keeps the bound
-        src = t.args[1]
-        if not t.args[2].startswith('i'):
-            return upper_bound(t.args[3], bits)
+        return upper_bound(t.args[3], bits) if _nonneg(t.args[3]) else None
     return None
 
 
@@ -498,6 +528,8 @@ def iun(op, ty, a):
 
 def cast(kind, fty, tty, a):
     """fty/tty strings: i8..u64/usize as ('i64'), f32, f64, bool, char"""
+    if a.op == 'ite' and _const_leaves(a) and kind == 'IntToInt':
+        return ite(a.args[0], cast(kind, fty, tty, a.args[1]), cast(kind, fty, tty, a.args[2]))
     if fty == tty and kind in ('IntToInt', 'FloatToFloat'):
         return a
     if kind == 'IntToInt' and fty == 'bool':
